@@ -81,42 +81,58 @@ pub async fn main() -> Result<(), Box<dyn std::error::Error>> {
     let mut buf = String::with_capacity(4 * 1024);
 
     loop {
-        let (mut tcp_stream, _) = listener.accept().await?;
+        let mut tcp_stream = match listener.accept().await {
+            Ok((tcp_stream, _)) => tcp_stream,
+            Err(e) => {
+                // e.g. the client aborted the connection while it was still queued
+                tracing::warn!("Could not accept metrics connection: {e}");
+                continue;
+            }
+        };
 
         // Wait until a request was sent, dropping the bytes read when this scope ends
         // to ensure we don't accidentally use them afterwards
-        {
+        let is_get_request = {
             // Receive all data until the header was fully received, or until max buf size
             let mut buf = [0u8; 2048];
             let mut bytes_read = 0;
             loop {
-                bytes_read += tcp_stream.read(&mut buf[bytes_read..]).await?;
+                match tcp_stream.read(&mut buf[bytes_read..]).await {
+                    // The client closed or reset the connection before completing its request
+                    Ok(0) | Err(_) => {
+                        tracing::warn!("Metrics connection closed before the request was complete");
+                        break false;
+                    }
+                    Ok(n) => bytes_read += n,
+                }
 
                 // The headers end with two CRLFs in a row
                 if buf[0..bytes_read].windows(4).any(|w| w == b"\r\n\r\n") {
-                    break;
+                    // We only respond to GET requests
+                    if !buf[0..bytes_read].starts_with(b"GET ") {
+                        tracing::warn!("Metrics connection wasn't get");
+                        break false;
+                    }
+                    break true;
                 }
 
                 // Headers should easily fit within the buffer
                 // If we have not found the end yet, we are not going to
                 if bytes_read >= buf.len() {
                     tracing::warn!("Metrics connection request too long");
-                    continue;
+                    break false;
                 }
             }
+        };
 
-            // We only respond to GET requests
-            if !buf[0..bytes_read].starts_with(b"GET ") {
-                tracing::warn!("Metrics connection wasn't get");
-                continue;
-            }
+        if !is_get_request {
+            // drop this connection, keep serving the next ones
+            continue;
         }
 
         buf.clear();
-        match handler(&mut buf, &observation_socket_path).await {
-            Ok(()) => {
-                tcp_stream.write_all(buf.as_bytes()).await?;
-            }
+        let write_result = match handler(&mut buf, &observation_socket_path).await {
+            Ok(()) => tcp_stream.write_all(buf.as_bytes()).await,
             Err(e) => {
                 log::warn!("error: {e}");
                 const ERROR_REPONSE: &str = concat!(
@@ -125,8 +141,13 @@ pub async fn main() -> Result<(), Box<dyn std::error::Error>> {
                     "content-length: 0\r\n\r\n",
                 );
 
-                tcp_stream.write_all(ERROR_REPONSE.as_bytes()).await?;
+                tcp_stream.write_all(ERROR_REPONSE.as_bytes()).await
             }
+        };
+
+        // A client that went away before reading its response only affects its own connection
+        if let Err(e) = write_result {
+            log::warn!("could not send metrics response: {e}");
         }
     }
 }
